@@ -193,8 +193,12 @@ def _run_mtl(case):
     cfgs = [(w, "explicit", None) for w in ws] + [("sum", "explicit", 1), ("mean", "explicit", 2)]
     if not around:
         cfgs += [(ws[len(ws) // 2], "default", None), ("sum", "default", 2), (ws[-2], "default", 1)]
+    # the same call twice with retain_graph=True: the twin's gradients twice (the graph must really have been retained everywhere)
+    cfgs += [(ws[1 % len(ws)], "explicit", None, 2), ("mean", "explicit", 1, 2)]
     viol, outcomes, execs, nontriv, worst = [], set(), 0, 0, 0.0
-    for ci, (w, mode, chunk) in enumerate(cfgs):
+    for ci, cfg_ in enumerate(cfgs):
+        w, mode, chunk = cfg_[:3]
+        reps = cfg_[3] if len(cfg_) > 3 else 1
         A = M.build_torch(desc, seed)
         t = A["ref"].t
         grad_leaves = [i for i in range(t.nleaves) if t.req[i]]
@@ -204,13 +208,14 @@ def _run_mtl(case):
             agg, wv = _shared("mean"), [1.0 / nt] * nt
         else:
             agg, wv = Constant(torch.tensor(w, dtype=torch.float64)), w
-        cfg = f"w={w} params={mode} chunk={chunk}"
+        cfg = f"w={w} params={mode} chunk={chunk}" + (f" called {reps}x with retain_graph=True" if reps > 1 else "")
         where = f"{P.prog_str(desc['trunk'])} feats={desc['feats']} heads={[(h['tpl'], h['f']) for h in desc['heads']]} | {cfg}"
         try:
-            mtl_backward(losses=A["losses"], features=A["feats"], aggregator=agg,
-                         tasks_params=None if mode == "default" else A["tparams"],
-                         shared_params=None if mode == "default" else [A["vals"][l] for l in grad_leaves],
-                         parallel_chunk_size=chunk)
+            for _ in range(reps):
+                mtl_backward(losses=A["losses"], features=A["feats"], aggregator=agg,
+                             tasks_params=None if mode == "default" else A["tparams"],
+                             shared_params=None if mode == "default" else [A["vals"][l] for l in grad_leaves],
+                             parallel_chunk_size=chunk, retain_graph=reps > 1)
         except Exception as e:
             viol.append(dict(sig=f"exception:mtl:{type(e).__name__}", msg=f"{where} | {e!r}"[:600]))
             execs += 1
@@ -232,6 +237,12 @@ def _run_mtl(case):
         shared_inputs = [Bt[l] for l in grad_leaves]
         torch.autograd.backward(featsB, grad_tensors=cot, inputs=shared_inputs)
         execs += 1
+        if reps > 1:
+            seen_ids = set()
+            for q in [Bt[l] for l in range(t.nleaves)] + [p for tp_ in tparamsB for p in tp_]:
+                if q.grad is not None and id(q) not in seen_ids:
+                    seen_ids.add(id(q))
+                    q.grad.mul_(reps)
         bad = None
         for l in range(t.nleaves):
             e = _cmp(A["vals"][l].grad, Bt[l].grad, 1e-11)
